@@ -69,6 +69,12 @@ def explore(world, target, max_paths=20000):
             res.error = 'unsupported: %s' % ex
             res.trace = traceback.format_exc()
             break
+        except (KeyError, AttributeError, TypeError, IndexError, ValueError, z3.Z3Exception) as ex:
+            # the sidecar names a local / shape that the changed source no longer has: no VC can honestly be
+            # generated for this target (DESIGN 3.2); the native search decides, otherwise the check is undecided
+            res.error = 'sidecar no longer fits the source: %s: %s' % (type(ex).__name__, ex)
+            res.trace = traceback.format_exc()
+            break
         except Raised as r:
             # an exception escaping the target harness itself: the harness must decide what that means
             res.error = 'uncaught exception %s escaped the target harness' % r.kind
